@@ -41,6 +41,7 @@ def check(m, run):
     cb_ok = len(run.obs) > n_cb and all(o.ok for o in run.obs[n_cb:])
     with run.corroborating(cb_ok, 'CB2', rules=()):
         c12.iv5(m, run, keep=lambda key: 'box' in key)
+    _sd.own2(m, run, rs.CONCRETE)      # the control points, caches and boxes read here are those of the shape asked: no container is shared between two new objects
     ag7(m, run)
     funcs = c01.evaluator_funcs(m)
     rl.ly1_canonical(m, run, funcs)
